@@ -82,6 +82,8 @@ RULES: Dict[str, Dict[str, Any]] = {
     "jax2onnx/plugins/plugin_system.py": dict(spec=Spec("elementwise", {}, const={"_opaque_callee": ("original_fn",)}), dom="none", param="-", operands="two-any", func="FunctionPlugin._batching_rule"),
     PJ + "nn/dot_product_attention.py": dict(spec=Spec("attention", {"has_bias": "has_bias", "has_mask": "has_mask"}, const={"_stretch_names": {41: "n0"}}), dom="none", param="-", operands="attention"),
     PJ + "numpy/einsum.py": dict(spec=Spec("einsum", {"equation": "equation"}, orig={}, orig_pos=("equation",), const={"_stretch_names": {7: "B"}}), dom="none", param="-", operands="einsum"),
+    PJ + "numpy/tile.py": dict(spec=Spec("tile", {"reps": "reps", "repeats": "reps"}), dom="reps", param="reps"),
+    PE + "group_norm.py": dict(spec=Spec("preserve", {"channel_axis": "axis"}), dom="axis", param="channel_axis", operands="x+params", extra={"batch_rank": 0, "num_groups": 1, "epsilon": 1e-5}),
     PJ + "numpy/linspace.py": dict(spec=Spec("linspace", {"axis": "axis"}), dom="axis_out", param="axis", operands="linspace"),
 }
 
@@ -286,6 +288,8 @@ def _cases(entry: Dict[str, Any], fi: FuncInfo) -> Iterable[Tuple[List[Optional[
             vals = []
         elif dom == "none":
             vals = ["-"]
+        elif dom == "reps":
+            vals = [tuple([2] * k) for k in range(1, rr + 2)] + [tuple([1] * (rr - 1) + [3])]
         else:
             raise AnalysisError(f"unknown domain kind {dom}")
         if dom == "squeeze":
@@ -377,7 +381,11 @@ def run_batch_rules(res: Results, idx: Index, tier: str) -> None:
                         res.unresolved("R-C10e", site, key, f"{msg} — {why}", fi.qualname)
                 elif by.get("UNRESOLVED"):
                     res.unresolved("R-C10e", site, key, by["UNRESOLVED"][0], fi.qualname)
-                elif n_ok:
+                elif n_ok or by.get("REJECTED"):
+                    n_rej = len(by.get("REJECTED", []))
+                    if not n_ok:
+                        res.ok("R-C10e", site, key, f"{n_rej} cases rejected loudly; e.g. {by['REJECTED'][0][:200]}", fi.qualname)
+                        continue
                     res.ok("R-C10e", site, key, f"{n_ok} cases; e.g. {by['OK'][0][:200]}", fi.qualname)
     # rules that hand the operands to the shared broadcasting batcher: the batcher itself is evaluated through each of
     # them with operands of equal and of different rank (numpy broadcasting aligns trailing axes)
